@@ -145,6 +145,8 @@ impl MainDev {
         __brk0 is Ok ==> exists|st: AlControl| #[trigger] al_status_read(Reads::Brd { address: 0, register: 0x0130 }, Some(self.n), st)
             && !st.error && st.state == desired_state,
     decreases __dl.left@
+@before "return Err(Error::StateTransition);"
+    proof { assert(status.error); }      // StateTransition ONLY when a device raised its error bit
 @*/
 }
 
